@@ -94,6 +94,48 @@ def run(facts, out):
                     ok = _drain_is_bom(b, t)
                     out.add('IC', b.path, 'trim:' + c['name'], loc_of(t['sp']), ok,
                             '' if ok else 'bytes read from the reader are removed from the buffer and are not the BOM length')
+    # IC4 BOM detection must not look at a single fill_buf() chunk: its length depends on how the
+    # reader delivers the bytes (a first chunk shorter than the BOM would not be recognised)
+    for b in bodies:
+        fb = [t for bb, t in b.calls() if callee_of(t) and callee_of(t).get('trait') == 'std::io::BufRead'
+              and callee_of(t)['name'] == 'fill_buf']
+        if not fb:
+            continue
+        tainted = {t['dest']['l'] for t in fb}
+        changed = True
+        while changed:
+            changed = False
+            for bi, blk in enumerate(b.blocks):
+                if blk.get('cleanup'):
+                    continue
+                for s in blk['st']:
+                    if s['k'] != 'assign':
+                        continue
+                    rv = s['rv']
+                    src = None
+                    if rv['k'] in ('use', 'cast'):
+                        src = op_place(rv['op'])
+                    elif rv['k'] == 'ref':
+                        src = rv['pl']
+                    if src is not None and src['l'] in tainted and s['pl']['l'] not in tainted:
+                        tainted.add(s['pl']['l'])
+                        changed = True
+                t2 = blk['term']
+                if t2['k'] == 'call':
+                    c2 = callee_of(t2)
+                    if c2 and (c2.get('trait') == 'std::ops::Try' or c2['name'] in ('deref', 'as_ref', 'unwrap_or_default')):
+                        l0 = op_local(t2['args'][0]) if t2['args'] else None
+                        if l0 in tainted and t2['dest']['l'] not in tainted:
+                            tainted.add(t2['dest']['l'])
+                            changed = True
+        for bb, t in b.calls():
+            c = callee_of(t)
+            if c and c['path'] == FROM_BOM:
+                l0 = op_local(t['args'][0])
+                bad = l0 in tainted
+                out.add('IC', b.path, 'bom-source', loc_of(t['sp']), not bad,
+                        '' if not bad else ('the BOM is detected on a single fill_buf() chunk; a reader whose first chunk is '
+                                            'shorter than the BOM gets a different encoding/result for the same bytes'))
     # IC2 across one call level: a function that returns a reader-filled buffer hands the obligation
     # to its callers
     carriers = set()
